@@ -13,3 +13,7 @@ pub(crate) use dual_avg::AcceptanceRateCollector;
 pub use adam::Adam;
 #[cfg(nuts_rs_verif)]
 pub use dual_avg::{DualAverage, DualAverageOptions};
+#[cfg(nuts_rs_verif)]
+pub use adapt::Strategy as VerifStepSizeStrategy;
+#[cfg(nuts_rs_verif)]
+pub use dual_avg::AcceptanceRateCollector as VerifAcceptanceRateCollector;
